@@ -200,8 +200,9 @@ class ExcelCompiler:
         def cell_value(a_cell):
             if a_cell.formula and a_cell.formula.python_code:
                 return '=' + a_cell.formula.python_code
-            elif isinstance(a_cell.value, np.float64):
-                return float(a_cell.value)
+            elif isinstance(a_cell.value, np.generic):
+                # numpy scalars (float64, int64, bool_, str_ ...)
+                return a_cell.value.item()
             else:
                 return a_cell.value
 
